@@ -29,6 +29,10 @@ ASTS[ESC_A] = ('cmp', '==', ('d',), ('str', 'A\tone\ttwo'))
 ASTS[ESC_B] = ('cmp', '==', ('d',), ('str', 'B\nxx\nyy\nzz'))
 ASTS[ESC_U] = ('cmp', '==', ('u',), ('uri', 'a:b/c'))
 ASTS[ESC_V] = ('cmp', '==', ('u',), ('uri', 'x?y&z'))
+# two filters that follow references: their EVALUATION walks the shared grid (id index, reference targets) row by row
+REF_A, REF_B = 'r->a', 'r->b and not a'
+ASTS[REF_A] = ('has', ('r', 'a'))
+ASTS[REF_B] = ('and', ('has', ('r', 'b')), ('not', ('a',)))
 SKIP_FUNCS = ('<lambda>', '_get_path', '_generate_filter_in_python', 'to_dict', '<module>', '<listcomp>', '<genexpr>')
 
 
@@ -42,6 +46,7 @@ def rows_neutral():
         rows.append(r)
     rows[0]['d'], rows[1]['d'], rows[2]['d'] = ('str', 'A\tone\ttwo'), ('str', 'B\nxx\nyy\nzz'), ('str', 'B\nxx')
     rows[3]['u'], rows[4]['u'] = ('uri', 'a:b/c'), ('uri', 'x?y&z')
+    rows[5]['r'], rows[6]['r'], rows[7]['r'], rows[1]['r'] = ('ref', 'r100', None), ('ref', 'r011', None), ('ref', 'nowhere', None), ('ref', 'r110', 'a display name')
     return rows
 
 
@@ -50,9 +55,9 @@ EXPECTED = {f: tuple(r['id'][1] for r in ROWS if RF.evaluate(ASTS[f], r, ROWS) i
 
 
 def mkgrid(hs):
-    g = hs.Grid(version='3.0', columns=[('id', []), ('a', []), ('b', []), ('c', []), ('d', []), ('u', [])])
+    g = hs.Grid(version='3.0', columns=[('id', []), ('a', []), ('b', []), ('c', []), ('d', []), ('u', []), ('r', [])])
     for r in ROWS:
-        g.append({k: (v[1] if v[0] == 'str' else (hs.Uri(v[1]) if v[0] == 'uri' else hs.MARKER)) for k, v in r.items()})
+        g.append({k: (v[1] if v[0] == 'str' else (hs.Uri(v[1]) if v[0] == 'uri' else (hs.Ref(v[1], v[2]) if v[0] == 'ref' else hs.MARKER))) for k, v in r.items()})
     return g
 
 
@@ -663,9 +668,9 @@ def run(ctx):
     if ctx.quick:
         todo = [(['a', 'b and not a'], None, 2, 2), (['a', 'a'], None, 1, 2), (['a', 'b and not a'], 1, 1, 2),
                 (['a', 'b and not a', 'c or a'], None, 1, 2), (['a', 'b and not a', 'a'], 2, 1, 2),
-                ([ESC_A, ESC_B], None, 1, 1), ([ESC_U, ESC_V], None, 1, 1)]
+                ([ESC_A, ESC_B], None, 1, 1), ([ESC_U, ESC_V], None, 1, 1), ([REF_A, 'a'], None, 1, 1), ([REF_A, REF_B], None, 1, 1)]
     else:
-        todo = [([ESC_A, ESC_B], None, 2, 1), ([ESC_U, ESC_V], None, 2, 1), ([ESC_A, ESC_U, ESC_B], None, 1, 1), (['a', 'b and not a'], None, 3, 1), (['a', 'b and not a'], None, 2, 2), (['a', 'a'], None, 2, 2), (['a', 'b and not a'], 1, 2, 2),
+        todo = [([REF_A, 'a'], None, 2, 1), ([REF_A, REF_B], None, 2, 1), ([REF_A, REF_B, 'c or a'], None, 1, 1), ([ESC_A, ESC_B], None, 2, 1), ([ESC_U, ESC_V], None, 2, 1), ([ESC_A, ESC_U, ESC_B], None, 1, 1), (['a', 'b and not a'], None, 3, 1), (['a', 'b and not a'], None, 2, 2), (['a', 'a'], None, 2, 2), (['a', 'b and not a'], 1, 2, 2),
                 (['a', 'b and not a', 'c or a'], None, 2, 1), (['a', 'b and not a', 'c or a'], None, 1, 2), (['a', 'b and not a', 'a'], 2, 2, 1)]
     bounds = [{'threads': plan, 'cache_capacity': cap or 'real', 'preemption_bound': bound, 'filter_calls_per_thread': calls} for plan, cap, bound, calls in todo]
     rounds = explore_plan_set(todo, ctx, st)
